@@ -26,9 +26,9 @@ package generator
 //@   ensures forall i, j int :: 0 <= i && i < j && j < len(decls) && decls[i].Priority == decls[j].Priority ==> !(decls[j].ID < decls[i].ID)
 //@   -- the content of each distinct ID exactly once (its first occurrence in that order), followed by a newline
 //@   ensures result == emitted(contents(decls), len(decls))
-//@   loop 1 index n
-//@   loop 1 invariant out == emitted(contents(decls), n)
-//@   loop 1 invariant forall s string :: keys[s] <==> (exists j int :: 0 <= j && j < n && decls[j].ID == s)
+//@   loop decls.1 index n
+//@   loop decls.1 invariant out == emitted(contents(decls), n)
+//@   loop decls.1 invariant forall s string :: keys[s] <==> (exists j int :: 0 <= j && j < n && decls[j].ID == s)
 
 // ---------------------------------------------------------------- C20
 
